@@ -115,6 +115,32 @@ func init() {
 				{File: f, Old: "\t\tif ones > bestPrefixLen ||\n\t\t\t(ones == bestPrefixLen && first.Metric < bestRoute.Metric) {\n", New: "\t\tif betterCandidate(ones, bestPrefixLen, first, bestRoute) {\n"},
 				{File: f, Old: "// lookupUnlocked performs lookup without locking (caller must hold lock).\nfunc (t *Table) lookupUnlocked", New: "func betterCandidate(ones, bestLen int, cand, best *Route) bool {\n\tswitch {\n\tcase ones >= bestLen:\n\t\treturn true\n\tcase ones < bestLen:\n\t\treturn false\n\t}\n\treturn best != nil && cand.Metric < best.Metric\n}\n\n// lookupUnlocked performs lookup without locking (caller must hold lock).\nfunc (t *Table) lookupUnlocked"},
 			}},
+			{Name: "round3b rewrite: bucketHead/prefixLen helpers, negated guards, explicit-unlock wrapper (C08/b shape)", Edits: []Edit{
+				{File: f, Old: "// Lookup finds the best route for an IP address using longest-prefix match.\nfunc (t *Table) Lookup(ip net.IP) *Route {\n\tt.mu.RLock()\n\tdefer t.mu.RUnlock()\n\n\treturn t.lookupUnlocked(ip)\n}\n\n// lookupUnlocked performs lookup without locking (caller must hold lock).\nfunc (t *Table) lookupUnlocked(ip net.IP) *Route {\n\tvar bestRoute *Route\n\tvar bestPrefixLen int = -1\n\n\t// Normalize IP to 16-byte form\n\tip = ip.To16()\n\n\tfor _, routes := range t.routes {\n\t\tif len(routes) == 0 {\n\t\t\tcontinue\n\t\t}\n\n\t\t// Check if IP is in this network\n\t\tfirst := routes[0]\n\t\tif !first.Network.Contains(ip) {\n\t\t\tcontinue\n\t\t}\n\n\t\t// Calculate prefix length. Two buckets can hold the same network under\n\t\t// different keys (e.g. a prefix advertised with host bits set), so an\n\t\t// equal prefix length is decided by the lower metric.\n\t\tones, _ := first.Network.Mask.Size()\n\t\tif ones > bestPrefixLen ||\n\t\t\t(ones == bestPrefixLen && first.Metric < bestRoute.Metric) {\n\t\t\tbestPrefixLen = ones\n\t\t\tbestRoute = first // First is best due to sorting by metric\n\t\t}\n\t}\n\n\tif bestRoute != nil {\n\t\treturn bestRoute.Clone()\n\t}\n\treturn nil\n}\n\n// LookupAll returns all routes for an IP address, sorted by prefix length then metric.\nfunc (t *Table) LookupAll(ip net.IP) []*Route {\n\tt.mu.RLock()\n\tdefer t.mu.RUnlock()\n\n\tip = ip.To16()\n\tvar matches []*Route\n\n\tfor _, routes := range t.routes {\n\t\tif len(routes) == 0 {\n\t\t\tcontinue\n\t\t}\n\n\t\tfirst := routes[0]\n\t\tif !first.Network.Contains(ip) {\n\t\t\tcontinue\n\t\t}\n\n\t\t// Add best route from each matching prefix\n\t\tmatches = append(matches, first.Clone())\n\t}\n\n\t// Sort by prefix length (longest first), then by metric\n\tsort.Slice(matches, func(i, j int) bool {\n\t\tonesI, _ := matches[i].Network.Mask.Size()\n\t\tonesJ, _ := matches[j].Network.Mask.Size()\n\t\tif onesI != onesJ {\n\t\t\treturn onesI > onesJ\n\t\t}\n\t\treturn matches[i].Metric < matches[j].Metric\n\t})\n\n\treturn matches\n}\n", New: "// Lookup finds the best route for an IP address using longest-prefix match.\nfunc (t *Table) Lookup(ip net.IP) *Route {\n\tt.mu.RLock()\n\tbest := t.bestMatchLocked(ip)\n\tif best == nil {\n\t\tt.mu.RUnlock()\n\t\treturn nil\n\t}\n\tresult := best.Clone()\n\tt.mu.RUnlock()\n\treturn result\n}\n\n// bestMatchLocked performs the longest-prefix match without locking (caller\n// must hold lock). The returned route is the stored entry, not a copy.\nfunc (t *Table) bestMatchLocked(ip net.IP) *Route {\n\t// Normalize IP to 16-byte form\n\tip = ip.To16()\n\n\tvar best *Route\n\tbestLen := -1\n\n\tfor _, routes := range t.routes {\n\t\thead := bucketHead(routes, ip)\n\t\tif head == nil {\n\t\t\tcontinue\n\t\t}\n\n\t\t// Two buckets can hold the same network under different keys (e.g. a\n\t\t// prefix advertised with host bits set), so an equal prefix length is\n\t\t// decided by the lower metric.\n\t\tones := prefixLen(head)\n\t\tif ones < bestLen {\n\t\t\tcontinue\n\t\t}\n\t\tif ones == bestLen && best.Metric <= head.Metric {\n\t\t\tcontinue\n\t\t}\n\t\tbest, bestLen = head, ones\n\t}\n\n\treturn best\n}\n\n// bucketHead returns the best route of a per-prefix bucket if the bucket's\n// network contains ip, and nil otherwise. The first route is the best one\n// because buckets are kept sorted by metric.\nfunc bucketHead(routes []*Route, ip net.IP) *Route {\n\tif len(routes) == 0 {\n\t\treturn nil\n\t}\n\tif first := routes[0]; first.Network.Contains(ip) {\n\t\treturn first\n\t}\n\treturn nil\n}\n\n// prefixLen returns the number of leading one bits in the route's netmask.\nfunc prefixLen(r *Route) int {\n\tones, _ := r.Network.Mask.Size()\n\treturn ones\n}\n\n// LookupAll returns all routes for an IP address, sorted by prefix length then metric.\nfunc (t *Table) LookupAll(ip net.IP) []*Route {\n\tt.mu.RLock()\n\tdefer t.mu.RUnlock()\n\n\tip = ip.To16()\n\tvar matches []*Route\n\n\tfor _, routes := range t.routes {\n\t\t// Add best route from each matching prefix\n\t\tif head := bucketHead(routes, ip); head != nil {\n\t\t\tmatches = append(matches, head.Clone())\n\t\t}\n\t}\n\n\t// Sort by prefix length (longest first), then by metric\n\tsort.Slice(matches, func(i, j int) bool {\n\t\tonesI, onesJ := prefixLen(matches[i]), prefixLen(matches[j])\n\t\tif onesI != onesJ {\n\t\t\treturn onesI > onesJ\n\t\t}\n\t\treturn matches[i].Metric < matches[j].Metric\n\t})\n\n\treturn matches\n}\n"},
+			}},
+			{Name: "round3b rewrite: positive merged condition, nil test, outranks helper (C08/c shape)", Edits: []Edit{
+				{File: f, Old: "// Lookup finds the best route for an IP address using longest-prefix match.\nfunc (t *Table) Lookup(ip net.IP) *Route {\n\tt.mu.RLock()\n\tdefer t.mu.RUnlock()\n\n\treturn t.lookupUnlocked(ip)\n}\n\n// lookupUnlocked performs lookup without locking (caller must hold lock).\nfunc (t *Table) lookupUnlocked(ip net.IP) *Route {\n\tvar bestRoute *Route\n\tvar bestPrefixLen int = -1\n\n\t// Normalize IP to 16-byte form\n\tip = ip.To16()\n\n\tfor _, routes := range t.routes {\n\t\tif len(routes) == 0 {\n\t\t\tcontinue\n\t\t}\n\n\t\t// Check if IP is in this network\n\t\tfirst := routes[0]\n\t\tif !first.Network.Contains(ip) {\n\t\t\tcontinue\n\t\t}\n\n\t\t// Calculate prefix length. Two buckets can hold the same network under\n\t\t// different keys (e.g. a prefix advertised with host bits set), so an\n\t\t// equal prefix length is decided by the lower metric.\n\t\tones, _ := first.Network.Mask.Size()\n\t\tif ones > bestPrefixLen ||\n\t\t\t(ones == bestPrefixLen && first.Metric < bestRoute.Metric) {\n\t\t\tbestPrefixLen = ones\n\t\t\tbestRoute = first // First is best due to sorting by metric\n\t\t}\n\t}\n\n\tif bestRoute != nil {\n\t\treturn bestRoute.Clone()\n\t}\n\treturn nil\n}\n\n// LookupAll returns all routes for an IP address, sorted by prefix length then metric.\nfunc (t *Table) LookupAll(ip net.IP) []*Route {\n\tt.mu.RLock()\n\tdefer t.mu.RUnlock()\n\n\tip = ip.To16()\n\tvar matches []*Route\n\n\tfor _, routes := range t.routes {\n\t\tif len(routes) == 0 {\n\t\t\tcontinue\n\t\t}\n\n\t\tfirst := routes[0]\n\t\tif !first.Network.Contains(ip) {\n\t\t\tcontinue\n\t\t}\n\n\t\t// Add best route from each matching prefix\n\t\tmatches = append(matches, first.Clone())\n\t}\n\n\t// Sort by prefix length (longest first), then by metric\n\tsort.Slice(matches, func(i, j int) bool {\n\t\tonesI, _ := matches[i].Network.Mask.Size()\n\t\tonesJ, _ := matches[j].Network.Mask.Size()\n\t\tif onesI != onesJ {\n\t\t\treturn onesI > onesJ\n\t\t}\n\t\treturn matches[i].Metric < matches[j].Metric\n\t})\n\n\treturn matches\n}\n", New: "// Lookup finds the best route for an IP address using longest-prefix match.\nfunc (t *Table) Lookup(ip net.IP) *Route {\n\tt.mu.RLock()\n\tdefer t.mu.RUnlock()\n\n\tif match := t.longestMatchLocked(ip); match != nil {\n\t\treturn match.Clone()\n\t}\n\treturn nil\n}\n\n// longestMatchLocked returns the stored route that best matches ip, or nil if\n// no stored network contains it (caller must hold lock).\nfunc (t *Table) longestMatchLocked(ip net.IP) *Route {\n\tvar (\n\t\tmatch    *Route\n\t\tmatchLen int\n\t)\n\n\t// Normalize IP to 16-byte form\n\tip = ip.To16()\n\n\tfor _, routes := range t.routes {\n\t\t// Only the first route of a prefix is considered: it is the best one\n\t\t// due to sorting by metric. Skip prefixes that do not contain the IP.\n\t\tif len(routes) > 0 && routes[0].Network.Contains(ip) {\n\t\t\tcandidate := routes[0]\n\t\t\tcandidateLen, _ := candidate.Network.Mask.Size()\n\t\t\tif match == nil || outranks(candidateLen, candidate.Metric, matchLen, match.Metric) {\n\t\t\t\tmatch, matchLen = candidate, candidateLen\n\t\t\t}\n\t\t}\n\t}\n\n\treturn match\n}\n\n// outranks reports whether a matching route with prefix length lenA and metric\n// metricA is preferred over one with lenB and metricB. Two buckets can hold the\n// same network under different keys (e.g. a prefix advertised with host bits\n// set), so an equal prefix length is decided by the lower metric.\nfunc outranks(lenA int, metricA uint16, lenB int, metricB uint16) bool {\n\tif lenA != lenB {\n\t\treturn lenB < lenA\n\t}\n\treturn metricA < metricB\n}\n\n// LookupAll returns all routes for an IP address, sorted by prefix length then metric.\nfunc (t *Table) LookupAll(ip net.IP) []*Route {\n\tt.mu.RLock()\n\tdefer t.mu.RUnlock()\n\n\tip = ip.To16()\n\tvar matches []*Route\n\n\tfor _, routes := range t.routes {\n\t\t// Add best route from each matching prefix\n\t\tif len(routes) > 0 && routes[0].Network.Contains(ip) {\n\t\t\tmatches = append(matches, routes[0].Clone())\n\t\t}\n\t}\n\n\t// Sort by prefix length (longest first), then by metric\n\tsort.Slice(matches, func(i, j int) bool {\n\t\tonesI, _ := matches[i].Network.Mask.Size()\n\t\tonesJ, _ := matches[j].Network.Mask.Size()\n\t\treturn outranks(onesI, matches[i].Metric, onesJ, matches[j].Metric)\n\t})\n\n\treturn matches\n}\n"},
+			}},
+			{Name: "round3b: outranks helper accepts an equal prefix length", ExpectRule: "C08.R3", Edits: []Edit{
+				{File: f, Old: "// Lookup finds the best route for an IP address using longest-prefix match.\nfunc (t *Table) Lookup(ip net.IP) *Route {\n\tt.mu.RLock()\n\tdefer t.mu.RUnlock()\n\n\treturn t.lookupUnlocked(ip)\n}\n\n// lookupUnlocked performs lookup without locking (caller must hold lock).\nfunc (t *Table) lookupUnlocked(ip net.IP) *Route {\n\tvar bestRoute *Route\n\tvar bestPrefixLen int = -1\n\n\t// Normalize IP to 16-byte form\n\tip = ip.To16()\n\n\tfor _, routes := range t.routes {\n\t\tif len(routes) == 0 {\n\t\t\tcontinue\n\t\t}\n\n\t\t// Check if IP is in this network\n\t\tfirst := routes[0]\n\t\tif !first.Network.Contains(ip) {\n\t\t\tcontinue\n\t\t}\n\n\t\t// Calculate prefix length. Two buckets can hold the same network under\n\t\t// different keys (e.g. a prefix advertised with host bits set), so an\n\t\t// equal prefix length is decided by the lower metric.\n\t\tones, _ := first.Network.Mask.Size()\n\t\tif ones > bestPrefixLen ||\n\t\t\t(ones == bestPrefixLen && first.Metric < bestRoute.Metric) {\n\t\t\tbestPrefixLen = ones\n\t\t\tbestRoute = first // First is best due to sorting by metric\n\t\t}\n\t}\n\n\tif bestRoute != nil {\n\t\treturn bestRoute.Clone()\n\t}\n\treturn nil\n}\n\n// LookupAll returns all routes for an IP address, sorted by prefix length then metric.\nfunc (t *Table) LookupAll(ip net.IP) []*Route {\n\tt.mu.RLock()\n\tdefer t.mu.RUnlock()\n\n\tip = ip.To16()\n\tvar matches []*Route\n\n\tfor _, routes := range t.routes {\n\t\tif len(routes) == 0 {\n\t\t\tcontinue\n\t\t}\n\n\t\tfirst := routes[0]\n\t\tif !first.Network.Contains(ip) {\n\t\t\tcontinue\n\t\t}\n\n\t\t// Add best route from each matching prefix\n\t\tmatches = append(matches, first.Clone())\n\t}\n\n\t// Sort by prefix length (longest first), then by metric\n\tsort.Slice(matches, func(i, j int) bool {\n\t\tonesI, _ := matches[i].Network.Mask.Size()\n\t\tonesJ, _ := matches[j].Network.Mask.Size()\n\t\tif onesI != onesJ {\n\t\t\treturn onesI > onesJ\n\t\t}\n\t\treturn matches[i].Metric < matches[j].Metric\n\t})\n\n\treturn matches\n}\n", New: "// Lookup finds the best route for an IP address using longest-prefix match.\nfunc (t *Table) Lookup(ip net.IP) *Route {\n\tt.mu.RLock()\n\tdefer t.mu.RUnlock()\n\n\tif match := t.longestMatchLocked(ip); match != nil {\n\t\treturn match.Clone()\n\t}\n\treturn nil\n}\n\n// longestMatchLocked returns the stored route that best matches ip, or nil if\n// no stored network contains it (caller must hold lock).\nfunc (t *Table) longestMatchLocked(ip net.IP) *Route {\n\tvar (\n\t\tmatch    *Route\n\t\tmatchLen int\n\t)\n\n\t// Normalize IP to 16-byte form\n\tip = ip.To16()\n\n\tfor _, routes := range t.routes {\n\t\t// Only the first route of a prefix is considered: it is the best one\n\t\t// due to sorting by metric. Skip prefixes that do not contain the IP.\n\t\tif len(routes) > 0 && routes[0].Network.Contains(ip) {\n\t\t\tcandidate := routes[0]\n\t\t\tcandidateLen, _ := candidate.Network.Mask.Size()\n\t\t\tif match == nil || outranks(candidateLen, candidate.Metric, matchLen, match.Metric) {\n\t\t\t\tmatch, matchLen = candidate, candidateLen\n\t\t\t}\n\t\t}\n\t}\n\n\treturn match\n}\n\n// outranks reports whether a matching route with prefix length lenA and metric\n// metricA is preferred over one with lenB and metricB. Two buckets can hold the\n// same network under different keys (e.g. a prefix advertised with host bits\n// set), so an equal prefix length is decided by the lower metric.\nfunc outranks(lenA int, metricA uint16, lenB int, metricB uint16) bool {\n\treturn lenB <= lenA\n}\n\n// LookupAll returns all routes for an IP address, sorted by prefix length then metric.\nfunc (t *Table) LookupAll(ip net.IP) []*Route {\n\tt.mu.RLock()\n\tdefer t.mu.RUnlock()\n\n\tip = ip.To16()\n\tvar matches []*Route\n\n\tfor _, routes := range t.routes {\n\t\t// Add best route from each matching prefix\n\t\tif len(routes) > 0 && routes[0].Network.Contains(ip) {\n\t\t\tmatches = append(matches, routes[0].Clone())\n\t\t}\n\t}\n\n\t// Sort by prefix length (longest first), then by metric\n\tsort.Slice(matches, func(i, j int) bool {\n\t\tonesI, _ := matches[i].Network.Mask.Size()\n\t\tonesJ, _ := matches[j].Network.Mask.Size()\n\t\treturn outranks(onesI, matches[i].Metric, onesJ, matches[j].Metric)\n\t})\n\n\treturn matches\n}\n"},
+			}},
+			{Name: "round3b: bucketHead helper returns the last element", ExpectRule: "C08.R3", Edits: []Edit{
+				{File: f, Old: "// Lookup finds the best route for an IP address using longest-prefix match.\nfunc (t *Table) Lookup(ip net.IP) *Route {\n\tt.mu.RLock()\n\tdefer t.mu.RUnlock()\n\n\treturn t.lookupUnlocked(ip)\n}\n\n// lookupUnlocked performs lookup without locking (caller must hold lock).\nfunc (t *Table) lookupUnlocked(ip net.IP) *Route {\n\tvar bestRoute *Route\n\tvar bestPrefixLen int = -1\n\n\t// Normalize IP to 16-byte form\n\tip = ip.To16()\n\n\tfor _, routes := range t.routes {\n\t\tif len(routes) == 0 {\n\t\t\tcontinue\n\t\t}\n\n\t\t// Check if IP is in this network\n\t\tfirst := routes[0]\n\t\tif !first.Network.Contains(ip) {\n\t\t\tcontinue\n\t\t}\n\n\t\t// Calculate prefix length. Two buckets can hold the same network under\n\t\t// different keys (e.g. a prefix advertised with host bits set), so an\n\t\t// equal prefix length is decided by the lower metric.\n\t\tones, _ := first.Network.Mask.Size()\n\t\tif ones > bestPrefixLen ||\n\t\t\t(ones == bestPrefixLen && first.Metric < bestRoute.Metric) {\n\t\t\tbestPrefixLen = ones\n\t\t\tbestRoute = first // First is best due to sorting by metric\n\t\t}\n\t}\n\n\tif bestRoute != nil {\n\t\treturn bestRoute.Clone()\n\t}\n\treturn nil\n}\n\n// LookupAll returns all routes for an IP address, sorted by prefix length then metric.\nfunc (t *Table) LookupAll(ip net.IP) []*Route {\n\tt.mu.RLock()\n\tdefer t.mu.RUnlock()\n\n\tip = ip.To16()\n\tvar matches []*Route\n\n\tfor _, routes := range t.routes {\n\t\tif len(routes) == 0 {\n\t\t\tcontinue\n\t\t}\n\n\t\tfirst := routes[0]\n\t\tif !first.Network.Contains(ip) {\n\t\t\tcontinue\n\t\t}\n\n\t\t// Add best route from each matching prefix\n\t\tmatches = append(matches, first.Clone())\n\t}\n\n\t// Sort by prefix length (longest first), then by metric\n\tsort.Slice(matches, func(i, j int) bool {\n\t\tonesI, _ := matches[i].Network.Mask.Size()\n\t\tonesJ, _ := matches[j].Network.Mask.Size()\n\t\tif onesI != onesJ {\n\t\t\treturn onesI > onesJ\n\t\t}\n\t\treturn matches[i].Metric < matches[j].Metric\n\t})\n\n\treturn matches\n}\n", New: "// Lookup finds the best route for an IP address using longest-prefix match.\nfunc (t *Table) Lookup(ip net.IP) *Route {\n\tt.mu.RLock()\n\tbest := t.bestMatchLocked(ip)\n\tif best == nil {\n\t\tt.mu.RUnlock()\n\t\treturn nil\n\t}\n\tresult := best.Clone()\n\tt.mu.RUnlock()\n\treturn result\n}\n\n// bestMatchLocked performs the longest-prefix match without locking (caller\n// must hold lock). The returned route is the stored entry, not a copy.\nfunc (t *Table) bestMatchLocked(ip net.IP) *Route {\n\t// Normalize IP to 16-byte form\n\tip = ip.To16()\n\n\tvar best *Route\n\tbestLen := -1\n\n\tfor _, routes := range t.routes {\n\t\thead := bucketHead(routes, ip)\n\t\tif head == nil {\n\t\t\tcontinue\n\t\t}\n\n\t\t// Two buckets can hold the same network under different keys (e.g. a\n\t\t// prefix advertised with host bits set), so an equal prefix length is\n\t\t// decided by the lower metric.\n\t\tones := prefixLen(head)\n\t\tif ones < bestLen {\n\t\t\tcontinue\n\t\t}\n\t\tif ones == bestLen && best.Metric <= head.Metric {\n\t\t\tcontinue\n\t\t}\n\t\tbest, bestLen = head, ones\n\t}\n\n\treturn best\n}\n\n// bucketHead returns the best route of a per-prefix bucket if the bucket's\n// network contains ip, and nil otherwise. The first route is the best one\n// because buckets are kept sorted by metric.\nfunc bucketHead(routes []*Route, ip net.IP) *Route {\n\tif len(routes) == 0 {\n\t\treturn nil\n\t}\n\tif first := routes[len(routes)-1]; first.Network.Contains(ip) {\n\t\treturn first\n\t}\n\treturn nil\n}\n\n// prefixLen returns the number of leading one bits in the route's netmask.\nfunc prefixLen(r *Route) int {\n\tones, _ := r.Network.Mask.Size()\n\treturn ones\n}\n\n// LookupAll returns all routes for an IP address, sorted by prefix length then metric.\nfunc (t *Table) LookupAll(ip net.IP) []*Route {\n\tt.mu.RLock()\n\tdefer t.mu.RUnlock()\n\n\tip = ip.To16()\n\tvar matches []*Route\n\n\tfor _, routes := range t.routes {\n\t\t// Add best route from each matching prefix\n\t\tif head := bucketHead(routes, ip); head != nil {\n\t\t\tmatches = append(matches, head.Clone())\n\t\t}\n\t}\n\n\t// Sort by prefix length (longest first), then by metric\n\tsort.Slice(matches, func(i, j int) bool {\n\t\tonesI, onesJ := prefixLen(matches[i]), prefixLen(matches[j])\n\t\tif onesI != onesJ {\n\t\t\treturn onesI > onesJ\n\t\t}\n\t\treturn matches[i].Metric < matches[j].Metric\n\t})\n\n\treturn matches\n}\n"},
+			}},
+			{Name: "round3b rewrite: upsertLocked with slot search and a single store-and-sort tail; pruneLocked (C08/c shape)", Edits: []Edit{
+				{File: f, Old: "import (\n\t\"fmt\"\n", New: "import (\n\t\"slices\"\n\t\"fmt\"\n"},
+				{File: f, Old: "// AddRoute adds or updates a route in the table.\n// Returns true if the route was added/updated, false if rejected (e.g., loop detected).\nfunc (t *Table) AddRoute(route *Route) bool {\n\tif route == nil || route.Network == nil {\n\t\treturn false\n\t}\n\n\t// Check for routing loops (is our ID in the path?)\n\tfor _, id := range route.Path {\n\t\tif id == t.localID {\n\t\t\treturn false // Loop detected\n\t\t}\n\t}\n\n\tkey := route.Network.String()\n\tnow := time.Now()\n\n\tt.mu.Lock()\n\tdefer t.mu.Unlock()\n\n\t// Check if we already have a route from this origin\n\texisting := t.routes[key]\n\tfor i, r := range existing {\n\t\tif r.OriginAgent == route.OriginAgent {\n\t\t\t// Update if newer sequence or better metric\n\t\t\tif route.Sequence > r.Sequence ||\n\t\t\t\t(route.Sequence == r.Sequence && route.Metric < r.Metric) {\n\t\t\t\tcloned := route.Clone()\n\t\t\t\tcloned.LastUpdate = now\n\t\t\t\tt.routes[key][i] = cloned\n\t\t\t\tt.sortRoutes(key)\n\t\t\t\treturn true\n\t\t\t}\n\t\t\treturn false // Older/worse route\n\t\t}\n\t}\n\n\t// New route from this origin\n\tcloned := route.Clone()\n\tcloned.LastUpdate = now\n\tt.routes[key] = append(t.routes[key], cloned)\n\tt.sortRoutes(key)\n\treturn true\n}\n\n// sortRoutes sorts routes for a key by metric (lowest first).\nfunc (t *Table) sortRoutes(key string) {\n\troutes := t.routes[key]\n\tsort.Slice(routes, func(i, j int) bool {\n\t\treturn routes[i].Metric < routes[j].Metric\n\t})\n}\n\n// RemoveRoute removes a route from a specific origin.\nfunc (t *Table) RemoveRoute(network *net.IPNet, originAgent identity.AgentID) bool {\n\tif network == nil {\n\t\treturn false\n\t}\n\n\tkey := network.String()\n\n\tt.mu.Lock()\n\tdefer t.mu.Unlock()\n\n\troutes := t.routes[key]\n\tfor i, r := range routes {\n\t\tif r.OriginAgent == originAgent {\n\t\t\t// Remove this route\n\t\t\tt.routes[key] = append(routes[:i], routes[i+1:]...)\n\t\t\tif len(t.routes[key]) == 0 {\n\t\t\t\tdelete(t.routes, key)\n\t\t\t}\n\t\t\treturn true\n\t\t}\n\t}\n\treturn false\n}\n\n// RemoveRoutesFromPeer removes all routes learned from a specific peer.\nfunc (t *Table) RemoveRoutesFromPeer(peerID identity.AgentID) int {\n\tt.mu.Lock()\n\tdefer t.mu.Unlock()\n\n\tcount := 0\n\tfor key, routes := range t.routes {\n\t\tfiltered := routes[:0]\n\t\tfor _, r := range routes {\n\t\t\tif r.NextHop != peerID {\n\t\t\t\tfiltered = append(filtered, r)\n\t\t\t} else {\n\t\t\t\tcount++\n\t\t\t}\n\t\t}\n\t\tif len(filtered) == 0 {\n\t\t\tdelete(t.routes, key)\n\t\t} else {\n\t\t\tt.routes[key] = filtered\n\t\t}\n\t}\n\treturn count\n}\n", New: "// AddRoute adds or updates a route in the table.\n// Returns true if the route was added/updated, false if rejected (e.g., loop detected).\nfunc (t *Table) AddRoute(route *Route) bool {\n\tif route == nil || route.Network == nil {\n\t\treturn false\n\t}\n\n\t// Check for routing loops (is our ID in the path?)\n\tif slices.Index(route.Path, t.localID) != -1 {\n\t\treturn false // Loop detected\n\t}\n\n\tkey := route.Network.String()\n\tnow := time.Now()\n\n\tt.mu.Lock()\n\taccepted := t.upsertLocked(key, route, now)\n\tt.mu.Unlock()\n\n\treturn accepted\n}\n\n// upsertLocked stores a copy of route under key, either replacing the entry of\n// the same origin or appending a new one (caller must hold the write lock).\n// Returns false if the stored entry of that origin is newer or at least as good.\nfunc (t *Table) upsertLocked(key string, route *Route, now time.Time) bool {\n\tbucket := t.routes[key]\n\n\t// Find the slot of this origin; default is the append position\n\tslot := len(bucket)\n\tfor i := range bucket {\n\t\tif bucket[i].OriginAgent == route.OriginAgent {\n\t\t\tslot = i\n\t\t\tbreak\n\t\t}\n\t}\n\tisNewOrigin := slot == len(bucket)\n\n\tif !isNewOrigin {\n\t\t// Update only if newer sequence or better metric\n\t\theld := bucket[slot]\n\t\tif route.Sequence < held.Sequence {\n\t\t\treturn false // Older route\n\t\t}\n\t\tif route.Sequence == held.Sequence && held.Metric <= route.Metric {\n\t\t\treturn false // Same version, not better\n\t\t}\n\t}\n\n\tstored := route.Clone()\n\tstored.LastUpdate = now\n\tif isNewOrigin {\n\t\tbucket = append(bucket, stored)\n\t} else {\n\t\tbucket[slot] = stored\n\t}\n\tt.routes[key] = bucket\n\n\t// Keep the bucket sorted by metric (lowest first)\n\tsort.Slice(bucket, func(i, j int) bool {\n\t\treturn bucket[i].Metric < bucket[j].Metric\n\t})\n\treturn true\n}\n\n// RemoveRoute removes a route from a specific origin.\nfunc (t *Table) RemoveRoute(network *net.IPNet, originAgent identity.AgentID) bool {\n\tif network == nil {\n\t\treturn false\n\t}\n\n\tkey := network.String()\n\n\tt.mu.Lock()\n\tdefer t.mu.Unlock()\n\n\troutes := t.routes[key]\n\tfor i := range routes {\n\t\tif routes[i].OriginAgent != originAgent {\n\t\t\tcontinue\n\t\t}\n\t\t// Remove this route\n\t\tif routes = slices.Delete(routes, i, i+1); len(routes) == 0 {\n\t\t\tdelete(t.routes, key)\n\t\t} else {\n\t\t\tt.routes[key] = routes\n\t\t}\n\t\treturn true\n\t}\n\treturn false\n}\n\n// RemoveRoutesFromPeer removes all routes learned from a specific peer.\nfunc (t *Table) RemoveRoutesFromPeer(peerID identity.AgentID) int {\n\tt.mu.Lock()\n\tcount := t.pruneLocked(func(r *Route) bool {\n\t\treturn r.NextHop == peerID\n\t})\n\tt.mu.Unlock()\n\n\treturn count\n}\n\n// pruneLocked drops every route for which drop returns true, deletes prefixes\n// that end up without routes and returns the number of dropped routes (caller\n// must hold the write lock). The relative order of the remaining routes of a\n// prefix is preserved.\nfunc (t *Table) pruneLocked(drop func(*Route) bool) int {\n\tdropped := 0\n\tfor key, routes := range t.routes {\n\t\tkept := routes[:0]\n\t\tfor _, r := range routes {\n\t\t\tif drop(r) {\n\t\t\t\tdropped++\n\t\t\t\tcontinue\n\t\t\t}\n\t\t\tkept = append(kept, r)\n\t\t}\n\t\tif len(kept) > 0 {\n\t\t\tt.routes[key] = kept\n\t\t} else {\n\t\t\tdelete(t.routes, key)\n\t\t}\n\t}\n\treturn dropped\n}\n"},
+				{File: f, Old: "// CleanupStaleRoutes removes routes that haven't been updated within maxAge.\n// Local routes (where OriginAgent == localID) are never removed.\n// Returns the number of routes removed.\nfunc (t *Table) CleanupStaleRoutes(maxAge time.Duration) int {\n\tt.mu.Lock()\n\tdefer t.mu.Unlock()\n\n\tnow := time.Now()\n\tremoved := 0\n\n\tfor key, routes := range t.routes {\n\t\tvar kept []*Route\n\t\tfor _, r := range routes {\n\t\t\t// Never remove local routes\n\t\t\tif r.OriginAgent == t.localID {\n\t\t\t\tkept = append(kept, r)\n\t\t\t\tcontinue\n\t\t\t}\n\n\t\t\t// Keep routes that are still fresh\n\t\t\tif now.Sub(r.LastUpdate) <= maxAge {\n\t\t\t\tkept = append(kept, r)\n\t\t\t} else {\n\t\t\t\tremoved++\n\t\t\t}\n\t\t}\n\n\t\tif len(kept) > 0 {\n\t\t\tt.routes[key] = kept\n\t\t} else {\n\t\t\tdelete(t.routes, key)\n\t\t}\n\t}\n\n\treturn removed\n}\n", New: "// CleanupStaleRoutes removes routes that haven't been updated within maxAge.\n// Local routes (where OriginAgent == localID) are never removed.\n// Returns the number of routes removed.\nfunc (t *Table) CleanupStaleRoutes(maxAge time.Duration) int {\n\tt.mu.Lock()\n\n\tnow := time.Now()\n\tremoved := t.pruneLocked(func(r *Route) bool {\n\t\t// Never remove local routes; keep remote routes that are still fresh\n\t\treturn r.OriginAgent != t.localID && now.Sub(r.LastUpdate) > maxAge\n\t})\n\n\tt.mu.Unlock()\n\n\treturn removed\n}\n"},
+			}},
+			{Name: "round3b: store-and-sort tail sorts only new origins", ExpectRule: "C08.R1", Edits: []Edit{
+				{File: f, Old: "import (\n\t\"fmt\"\n", New: "import (\n\t\"slices\"\n\t\"fmt\"\n"},
+				{File: f, Old: "// AddRoute adds or updates a route in the table.\n// Returns true if the route was added/updated, false if rejected (e.g., loop detected).\nfunc (t *Table) AddRoute(route *Route) bool {\n\tif route == nil || route.Network == nil {\n\t\treturn false\n\t}\n\n\t// Check for routing loops (is our ID in the path?)\n\tfor _, id := range route.Path {\n\t\tif id == t.localID {\n\t\t\treturn false // Loop detected\n\t\t}\n\t}\n\n\tkey := route.Network.String()\n\tnow := time.Now()\n\n\tt.mu.Lock()\n\tdefer t.mu.Unlock()\n\n\t// Check if we already have a route from this origin\n\texisting := t.routes[key]\n\tfor i, r := range existing {\n\t\tif r.OriginAgent == route.OriginAgent {\n\t\t\t// Update if newer sequence or better metric\n\t\t\tif route.Sequence > r.Sequence ||\n\t\t\t\t(route.Sequence == r.Sequence && route.Metric < r.Metric) {\n\t\t\t\tcloned := route.Clone()\n\t\t\t\tcloned.LastUpdate = now\n\t\t\t\tt.routes[key][i] = cloned\n\t\t\t\tt.sortRoutes(key)\n\t\t\t\treturn true\n\t\t\t}\n\t\t\treturn false // Older/worse route\n\t\t}\n\t}\n\n\t// New route from this origin\n\tcloned := route.Clone()\n\tcloned.LastUpdate = now\n\tt.routes[key] = append(t.routes[key], cloned)\n\tt.sortRoutes(key)\n\treturn true\n}\n\n// sortRoutes sorts routes for a key by metric (lowest first).\nfunc (t *Table) sortRoutes(key string) {\n\troutes := t.routes[key]\n\tsort.Slice(routes, func(i, j int) bool {\n\t\treturn routes[i].Metric < routes[j].Metric\n\t})\n}\n\n// RemoveRoute removes a route from a specific origin.\nfunc (t *Table) RemoveRoute(network *net.IPNet, originAgent identity.AgentID) bool {\n\tif network == nil {\n\t\treturn false\n\t}\n\n\tkey := network.String()\n\n\tt.mu.Lock()\n\tdefer t.mu.Unlock()\n\n\troutes := t.routes[key]\n\tfor i, r := range routes {\n\t\tif r.OriginAgent == originAgent {\n\t\t\t// Remove this route\n\t\t\tt.routes[key] = append(routes[:i], routes[i+1:]...)\n\t\t\tif len(t.routes[key]) == 0 {\n\t\t\t\tdelete(t.routes, key)\n\t\t\t}\n\t\t\treturn true\n\t\t}\n\t}\n\treturn false\n}\n\n// RemoveRoutesFromPeer removes all routes learned from a specific peer.\nfunc (t *Table) RemoveRoutesFromPeer(peerID identity.AgentID) int {\n\tt.mu.Lock()\n\tdefer t.mu.Unlock()\n\n\tcount := 0\n\tfor key, routes := range t.routes {\n\t\tfiltered := routes[:0]\n\t\tfor _, r := range routes {\n\t\t\tif r.NextHop != peerID {\n\t\t\t\tfiltered = append(filtered, r)\n\t\t\t} else {\n\t\t\t\tcount++\n\t\t\t}\n\t\t}\n\t\tif len(filtered) == 0 {\n\t\t\tdelete(t.routes, key)\n\t\t} else {\n\t\t\tt.routes[key] = filtered\n\t\t}\n\t}\n\treturn count\n}\n", New: "// AddRoute adds or updates a route in the table.\n// Returns true if the route was added/updated, false if rejected (e.g., loop detected).\nfunc (t *Table) AddRoute(route *Route) bool {\n\tif route == nil || route.Network == nil {\n\t\treturn false\n\t}\n\n\t// Check for routing loops (is our ID in the path?)\n\tif slices.Index(route.Path, t.localID) != -1 {\n\t\treturn false // Loop detected\n\t}\n\n\tkey := route.Network.String()\n\tnow := time.Now()\n\n\tt.mu.Lock()\n\taccepted := t.upsertLocked(key, route, now)\n\tt.mu.Unlock()\n\n\treturn accepted\n}\n\n// upsertLocked stores a copy of route under key, either replacing the entry of\n// the same origin or appending a new one (caller must hold the write lock).\n// Returns false if the stored entry of that origin is newer or at least as good.\nfunc (t *Table) upsertLocked(key string, route *Route, now time.Time) bool {\n\tbucket := t.routes[key]\n\n\t// Find the slot of this origin; default is the append position\n\tslot := len(bucket)\n\tfor i := range bucket {\n\t\tif bucket[i].OriginAgent == route.OriginAgent {\n\t\t\tslot = i\n\t\t\tbreak\n\t\t}\n\t}\n\tisNewOrigin := slot == len(bucket)\n\n\tif !isNewOrigin {\n\t\t// Update only if newer sequence or better metric\n\t\theld := bucket[slot]\n\t\tif route.Sequence < held.Sequence {\n\t\t\treturn false // Older route\n\t\t}\n\t\tif route.Sequence == held.Sequence && held.Metric <= route.Metric {\n\t\t\treturn false // Same version, not better\n\t\t}\n\t}\n\n\tstored := route.Clone()\n\tstored.LastUpdate = now\n\tif isNewOrigin {\n\t\tbucket = append(bucket, stored)\n\t} else {\n\t\tbucket[slot] = stored\n\t}\n\tt.routes[key] = bucket\n\n\tif isNewOrigin {\n\t\tsort.Slice(bucket, func(i, j int) bool {\n\t\t\treturn bucket[i].Metric < bucket[j].Metric\n\t\t})\n\t}\n\treturn true\n}\n\n// RemoveRoute removes a route from a specific origin.\nfunc (t *Table) RemoveRoute(network *net.IPNet, originAgent identity.AgentID) bool {\n\tif network == nil {\n\t\treturn false\n\t}\n\n\tkey := network.String()\n\n\tt.mu.Lock()\n\tdefer t.mu.Unlock()\n\n\troutes := t.routes[key]\n\tfor i := range routes {\n\t\tif routes[i].OriginAgent != originAgent {\n\t\t\tcontinue\n\t\t}\n\t\t// Remove this route\n\t\tif routes = slices.Delete(routes, i, i+1); len(routes) == 0 {\n\t\t\tdelete(t.routes, key)\n\t\t} else {\n\t\t\tt.routes[key] = routes\n\t\t}\n\t\treturn true\n\t}\n\treturn false\n}\n\n// RemoveRoutesFromPeer removes all routes learned from a specific peer.\nfunc (t *Table) RemoveRoutesFromPeer(peerID identity.AgentID) int {\n\tt.mu.Lock()\n\tcount := t.pruneLocked(func(r *Route) bool {\n\t\treturn r.NextHop == peerID\n\t})\n\tt.mu.Unlock()\n\n\treturn count\n}\n\n// pruneLocked drops every route for which drop returns true, deletes prefixes\n// that end up without routes and returns the number of dropped routes (caller\n// must hold the write lock). The relative order of the remaining routes of a\n// prefix is preserved.\nfunc (t *Table) pruneLocked(drop func(*Route) bool) int {\n\tdropped := 0\n\tfor key, routes := range t.routes {\n\t\tkept := routes[:0]\n\t\tfor _, r := range routes {\n\t\t\tif drop(r) {\n\t\t\t\tdropped++\n\t\t\t\tcontinue\n\t\t\t}\n\t\t\tkept = append(kept, r)\n\t\t}\n\t\tif len(kept) > 0 {\n\t\t\tt.routes[key] = kept\n\t\t} else {\n\t\t\tdelete(t.routes, key)\n\t\t}\n\t}\n\treturn dropped\n}\n"},
+				{File: f, Old: "// CleanupStaleRoutes removes routes that haven't been updated within maxAge.\n// Local routes (where OriginAgent == localID) are never removed.\n// Returns the number of routes removed.\nfunc (t *Table) CleanupStaleRoutes(maxAge time.Duration) int {\n\tt.mu.Lock()\n\tdefer t.mu.Unlock()\n\n\tnow := time.Now()\n\tremoved := 0\n\n\tfor key, routes := range t.routes {\n\t\tvar kept []*Route\n\t\tfor _, r := range routes {\n\t\t\t// Never remove local routes\n\t\t\tif r.OriginAgent == t.localID {\n\t\t\t\tkept = append(kept, r)\n\t\t\t\tcontinue\n\t\t\t}\n\n\t\t\t// Keep routes that are still fresh\n\t\t\tif now.Sub(r.LastUpdate) <= maxAge {\n\t\t\t\tkept = append(kept, r)\n\t\t\t} else {\n\t\t\t\tremoved++\n\t\t\t}\n\t\t}\n\n\t\tif len(kept) > 0 {\n\t\t\tt.routes[key] = kept\n\t\t} else {\n\t\t\tdelete(t.routes, key)\n\t\t}\n\t}\n\n\treturn removed\n}\n", New: "// CleanupStaleRoutes removes routes that haven't been updated within maxAge.\n// Local routes (where OriginAgent == localID) are never removed.\n// Returns the number of routes removed.\nfunc (t *Table) CleanupStaleRoutes(maxAge time.Duration) int {\n\tt.mu.Lock()\n\n\tnow := time.Now()\n\tremoved := t.pruneLocked(func(r *Route) bool {\n\t\t// Never remove local routes; keep remote routes that are still fresh\n\t\treturn r.OriginAgent != t.localID && now.Sub(r.LastUpdate) > maxAge\n\t})\n\n\tt.mu.Unlock()\n\n\treturn removed\n}\n"},
+			}},
+			{Name: "round3b rewrite: originIndex / sortByMetric / pathHasLoop helpers (C08/b shape)", Edits: []Edit{
+				{File: f, Old: "import (\n\t\"fmt\"\n", New: "import (\n\t\"slices\"\n\t\"fmt\"\n"},
+				{File: f, Old: "// AddRoute adds or updates a route in the table.\n// Returns true if the route was added/updated, false if rejected (e.g., loop detected).\nfunc (t *Table) AddRoute(route *Route) bool {\n\tif route == nil || route.Network == nil {\n\t\treturn false\n\t}\n\n\t// Check for routing loops (is our ID in the path?)\n\tfor _, id := range route.Path {\n\t\tif id == t.localID {\n\t\t\treturn false // Loop detected\n\t\t}\n\t}\n\n\tkey := route.Network.String()\n\tnow := time.Now()\n\n\tt.mu.Lock()\n\tdefer t.mu.Unlock()\n\n\t// Check if we already have a route from this origin\n\texisting := t.routes[key]\n\tfor i, r := range existing {\n\t\tif r.OriginAgent == route.OriginAgent {\n\t\t\t// Update if newer sequence or better metric\n\t\t\tif route.Sequence > r.Sequence ||\n\t\t\t\t(route.Sequence == r.Sequence && route.Metric < r.Metric) {\n\t\t\t\tcloned := route.Clone()\n\t\t\t\tcloned.LastUpdate = now\n\t\t\t\tt.routes[key][i] = cloned\n\t\t\t\tt.sortRoutes(key)\n\t\t\t\treturn true\n\t\t\t}\n\t\t\treturn false // Older/worse route\n\t\t}\n\t}\n\n\t// New route from this origin\n\tcloned := route.Clone()\n\tcloned.LastUpdate = now\n\tt.routes[key] = append(t.routes[key], cloned)\n\tt.sortRoutes(key)\n\treturn true\n}\n\n// sortRoutes sorts routes for a key by metric (lowest first).\nfunc (t *Table) sortRoutes(key string) {\n\troutes := t.routes[key]\n\tsort.Slice(routes, func(i, j int) bool {\n\t\treturn routes[i].Metric < routes[j].Metric\n\t})\n}\n\n// RemoveRoute removes a route from a specific origin.\nfunc (t *Table) RemoveRoute(network *net.IPNet, originAgent identity.AgentID) bool {\n\tif network == nil {\n\t\treturn false\n\t}\n\n\tkey := network.String()\n\n\tt.mu.Lock()\n\tdefer t.mu.Unlock()\n\n\troutes := t.routes[key]\n\tfor i, r := range routes {\n\t\tif r.OriginAgent == originAgent {\n\t\t\t// Remove this route\n\t\t\tt.routes[key] = append(routes[:i], routes[i+1:]...)\n\t\t\tif len(t.routes[key]) == 0 {\n\t\t\t\tdelete(t.routes, key)\n\t\t\t}\n\t\t\treturn true\n\t\t}\n\t}\n\treturn false\n}\n\n// RemoveRoutesFromPeer removes all routes learned from a specific peer.\nfunc (t *Table) RemoveRoutesFromPeer(peerID identity.AgentID) int {\n\tt.mu.Lock()\n\tdefer t.mu.Unlock()\n\n\tcount := 0\n\tfor key, routes := range t.routes {\n\t\tfiltered := routes[:0]\n\t\tfor _, r := range routes {\n\t\t\tif r.NextHop != peerID {\n\t\t\t\tfiltered = append(filtered, r)\n\t\t\t} else {\n\t\t\t\tcount++\n\t\t\t}\n\t\t}\n\t\tif len(filtered) == 0 {\n\t\t\tdelete(t.routes, key)\n\t\t} else {\n\t\t\tt.routes[key] = filtered\n\t\t}\n\t}\n\treturn count\n}\n", New: "// AddRoute adds or updates a route in the table.\n// Returns true if the route was added/updated, false if rejected (e.g., loop detected).\nfunc (t *Table) AddRoute(route *Route) bool {\n\tif route == nil || route.Network == nil {\n\t\treturn false\n\t}\n\n\tif t.pathHasLoop(route.Path) {\n\t\treturn false // Loop detected\n\t}\n\n\tnow := time.Now()\n\tkey := route.Network.String()\n\n\tt.mu.Lock()\n\tdefer t.mu.Unlock()\n\n\t// Check if we already have a route from this origin\n\tidx := originIndex(t.routes[key], route.OriginAgent)\n\tif idx < 0 {\n\t\t// New route from this origin\n\t\tcloned := route.Clone()\n\t\tcloned.LastUpdate = now\n\t\tt.routes[key] = append(t.routes[key], cloned)\n\t\tsortByMetric(t.routes[key])\n\t\treturn true\n\t}\n\n\t// Update if newer sequence or better metric\n\tprev := t.routes[key][idx]\n\tisNewer := route.Sequence > prev.Sequence\n\tisCheaper := route.Sequence == prev.Sequence && route.Metric < prev.Metric\n\tif !isNewer && !isCheaper {\n\t\treturn false // Older/worse route\n\t}\n\n\tcloned := route.Clone()\n\tcloned.LastUpdate = now\n\tt.routes[key][idx] = cloned\n\tsortByMetric(t.routes[key])\n\treturn true\n}\n\n// pathHasLoop reports whether our own ID already appears in an advertised path.\nfunc (t *Table) pathHasLoop(path []identity.AgentID) bool {\n\tfor _, hop := range path {\n\t\tif hop == t.localID {\n\t\t\treturn true\n\t\t}\n\t}\n\treturn false\n}\n\n// originIndex returns the position of the first route advertised by origin,\n// or -1 if origin has no route in the given slice.\nfunc originIndex(routes []*Route, origin identity.AgentID) int {\n\treturn slices.IndexFunc(routes, func(r *Route) bool {\n\t\treturn r.OriginAgent == origin\n\t})\n}\n\n// sortByMetric sorts routes of one prefix by metric (lowest first).\nfunc sortByMetric(routes []*Route) {\n\tsort.Slice(routes, func(i, j int) bool {\n\t\treturn routes[i].Metric < routes[j].Metric\n\t})\n}\n\n// RemoveRoute removes a route from a specific origin.\nfunc (t *Table) RemoveRoute(network *net.IPNet, originAgent identity.AgentID) bool {\n\tif network == nil {\n\t\treturn false\n\t}\n\n\tkey := network.String()\n\n\tt.mu.Lock()\n\tdefer t.mu.Unlock()\n\n\troutes := t.routes[key]\n\tidx := originIndex(routes, originAgent)\n\tif idx < 0 {\n\t\treturn false\n\t}\n\n\t// Remove this route\n\tt.routes[key] = append(routes[:idx], routes[idx+1:]...)\n\tif len(t.routes[key]) == 0 {\n\t\tdelete(t.routes, key)\n\t}\n\treturn true\n}\n\n// RemoveRoutesFromPeer removes all routes learned from a specific peer.\nfunc (t *Table) RemoveRoutesFromPeer(peerID identity.AgentID) int {\n\tt.mu.Lock()\n\tdefer t.mu.Unlock()\n\n\tcount := 0\n\tfor key, routes := range t.routes {\n\t\tfiltered := routes[:0]\n\t\tfor _, r := range routes {\n\t\t\tif r.NextHop != peerID {\n\t\t\t\tfiltered = append(filtered, r)\n\t\t\t} else {\n\t\t\t\tcount++\n\t\t\t}\n\t\t}\n\t\tif len(filtered) == 0 {\n\t\t\tdelete(t.routes, key)\n\t\t} else {\n\t\t\tt.routes[key] = filtered\n\t\t}\n\t}\n\treturn count\n}\n"},
+			}},
 			// behaviour-preserving rewrites
 			{Name: "rewrite: operands swapped and !(a<=b)", Edits: []Edit{
 				{File: f, Old: "\t\tif ones > bestPrefixLen ||\n\t\t\t(ones == bestPrefixLen && first.Metric < bestRoute.Metric) {", New: "\t\tif !(ones <= bestPrefixLen) ||\n\t\t\t(bestPrefixLen == ones && bestRoute.Metric > first.Metric) {"},
@@ -156,6 +182,35 @@ func runC08(p *kit.Program, r *kit.Report) {
 	if !r.Require(tbl != nil, "anchor-unresolved: table whose route type carries a *net.IPNet") {
 		return
 	}
+	// bounded model of the table (shape-independent) as obligations of its own and as second
+	// opinion on what the structural rules below do not recognise
+	sem := m.sem()
+	sem.report(r, "C08.R1", "sorted", "buckets stay sorted by metric under every operation", tbl,
+		"element 0 of a bucket is not the lowest metric, which is the route lookups return")
+	sem.report(r, "C08.R3", "lookup", "Lookup returns the longest containing prefix with the lowest metric", tbl,
+		"the lookup does not return the longest-prefix, lowest-metric route")
+	defer sem.override(r, func(rule, key, detail string) string {
+		switch rule {
+		case "C08.R1":
+			if strings.Contains(key, " bucket ") && !strings.HasSuffix(key, " lock") {
+				return "sorted"
+			}
+		case "C08.R2":
+			return "sorted"
+		case "C08.R3":
+			for _, sub := range []string{"candidate containment", "candidate is bucket head", "replace table", " result"} {
+				if strings.HasSuffix(key, sub) {
+					return "lookup"
+				}
+			}
+		}
+		return ""
+	}, func(floor string) (string, *c08Table) {
+		if strings.HasPrefix(floor, "floor:") {
+			return "sorted", m.tableNamed(floor)
+		}
+		return "", nil
+	})
 	counts := m.checkSorted(r, "C08.R1", "C08.R2", []*c08Table{tbl})
 	for k, v := range counts {
 		r.Count("bucket_writes_"+strings.ReplaceAll(k, " ", "_"), v)
@@ -194,9 +249,7 @@ func runC08(p *kit.Program, r *kit.Report) {
 	}
 	ename := kit.FuncName(entry)
 	if !isScan[entry] {
-		c := c08ReturnedCall(entry)
-		ok := c != nil && isScan[kit.CalleeOf(c).Static] && len(entry.Params) == 2 && len(c.Call.Args) == 2 &&
-			c.Call.Args[0] == ssa.Value(entry.Params[0]) && c.Call.Args[1] == ssa.Value(entry.Params[1])
+		c, ok := c08WrapsScan(entry, tbl, isScan)
 		r.Decide(ok, "C08.R4", ename+" returns the scan result", p.Pos(entry.Pos()),
 			"every return is the result of the scan called with the receiver and the address argument",
 			"Table.Lookup does not return the scan's result for its own argument unmodified: the route handed out is not the longest-prefix, lowest-metric one")
@@ -251,6 +304,76 @@ func runC08(p *kit.Program, r *kit.Report) {
 	r.Require(nMgr >= 1, "anchor-unresolved: Manager.Lookup (method named Lookup returning *%s on the struct holding *%s)", tbl.route.Obj().Name(), tbl.name)
 }
 
+// c08WrapsScan: entry calls one scan function with its own receiver and address and every
+// return hands out that call's result, a copy of it made by a one-argument helper of the
+// package (Clone), or nil — nil only where the scan's result was tested to be nil or for an
+// empty argument / empty table. Result variables, phis and early returns are looked through.
+func c08WrapsScan(entry *ssa.Function, tbl *c08Table, isScan map[*ssa.Function]bool) (*ssa.Call, bool) {
+	var scan *ssa.Call
+	n := 0
+	kit.Instrs(entry, func(in ssa.Instruction) {
+		if c, ok := in.(*ssa.Call); ok && isScan[kit.CalleeOf(c).Static] {
+			scan = c
+			n++
+		}
+	})
+	if n != 1 || len(entry.Params) != 2 || len(scan.Call.Args) != 2 ||
+		c08Resolve(scan.Call.Args[0]) != ssa.Value(entry.Params[0]) || c08Resolve(scan.Call.Args[1]) != ssa.Value(entry.Params[1]) {
+		return scan, false
+	}
+	fromScan := func(v ssa.Value) bool {
+		v = c08Resolve(v)
+		if v == ssa.Value(scan) {
+			return true
+		}
+		if c, ok := v.(*ssa.Call); ok && kit.CalleeOf(c).Static != nil && kit.FuncPkgPath(kit.CalleeOf(c).Static) == kit.PkgPath(c08Pkg) &&
+			len(c.Call.Args) == 1 && c08RouteOfPtr(c.Call.Args[0].Type()) == tbl.route && c08RouteOfPtr(c.Type()) == tbl.route {
+			return c08Resolve(c.Call.Args[0]) == ssa.Value(scan)
+		}
+		return false
+	}
+	nilTested := func(ret *ssa.Return) bool {
+		for _, g := range kit.Guards(ret.Block()) {
+			c, pol := c08NormCond(g.Cond, g.Polarity)
+			b, ok := c.(*ssa.BinOp)
+			if !ok || (b.Op != token.EQL && b.Op != token.NEQ) {
+				continue
+			}
+			var other ssa.Value
+			if kit.IsNilConst(b.Y) {
+				other = b.X
+			} else if kit.IsNilConst(b.X) {
+				other = b.Y
+			}
+			if other != nil && c08Resolve(other) == ssa.Value(scan) && (b.Op == token.EQL) == pol {
+				return true
+			}
+		}
+		return false
+	}
+	for _, ret := range kit.Returns(entry) {
+		if ret.Block() == entry.Recover {
+			continue
+		}
+		if len(ret.Results) != 1 {
+			return scan, false
+		}
+		v := kit.ReturnResult(ret, 0)
+		for _, leaf := range kit.PhiLeaves(c08Resolve(v)) {
+			if kit.IsNilConst(leaf) {
+				if kit.IsNilConst(v) && !(nilTested(ret) || c08TrivialNilReturn(entry, ret)) {
+					return scan, false
+				}
+				continue
+			}
+			if !fromScan(leaf) {
+				return scan, false
+			}
+		}
+	}
+	return scan, true
+}
+
 // rangeOverBuckets returns the Range instruction of fn over a bucket map field of tbl loaded
 // from the receiver, or nil.
 func (m *c08Model) rangeOverBuckets(fn *ssa.Function, tbl *c08Table) *ssa.Range {
@@ -272,6 +395,9 @@ func (m *c08Model) checkScan(r *kit.Report, tbl *c08Table, fn *ssa.Function) {
 	p := m.p
 	fname := kit.FuncName(fn)
 	pos := p.Pos(fn.Pos())
+	for _, sub := range []string{"replace table", "candidate containment", "candidate is bucket head", "result"} {
+		m.note("C08.R3", fname+" "+sub, tbl)
+	}
 	fail := func(sub, msg string) {
 		r.Violation("C08.R3", fname+" "+sub, pos, "%s", msg)
 	}
@@ -802,6 +928,7 @@ type c08Model struct {
 	funcs   []*ssa.Function
 	events  []*c08Event
 	sorts   []*c08Sort
+	semc    *c08Sem
 }
 
 func c08IsRouteStruct(n *types.Named) map[string]*types.Var {
@@ -1672,6 +1799,7 @@ func (m *c08Model) checkSorted(r *kit.Report, ruleMaint, ruleCmp string, tables 
 		counts[ev.tbl.name+" "+ev.kind]++
 		fname := kit.FuncName(ev.fn)
 		key := fmt.Sprintf("%s bucket %s #%d", fname, ev.kind, c08Ordinal(ord, fname+ev.kind))
+		m.noteFn(ruleMaint, key, ev.tbl, ev.fn)
 		pos := p.Pos(ev.instr.Pos())
 		switch ev.kind {
 		case "rewrite", "delete", "reset":
@@ -1704,12 +1832,16 @@ func (m *c08Model) checkSorted(r *kit.Report, ruleMaint, ruleCmp string, tables 
 				bad = "the function can return at " + p.Pos(ret.Pos()) + " without re-sorting the bucket"
 			}
 		}
-		if bad == "" && ev.tbl.mu != nil {
+		if len(match) > 0 && ev.tbl.mu != nil {
+			badLock := ""
 			li := kit.Locks(ev.fn)
 			for _, op := range li.Ops {
 				if op.Mutex == ev.tbl.mu && !op.Acquire && !op.Defer && kit.CanReachAvoiding(ev.instr, op.Instr, avoid) {
-					bad = "the table lock is released at " + p.Pos(op.Instr.Pos()) + " before the bucket is re-sorted"
+					badLock = "the table lock is released at " + p.Pos(op.Instr.Pos()) + " before the bucket is re-sorted"
 				}
+			}
+			if badLock != "" {
+				r.Violation(ruleMaint, key+" lock", pos, "a route (metric) enters the bucket and %s: a concurrent lookup sees element 0 that is not the lowest metric", badLock)
 			}
 		}
 		if len(match) == 0 {
@@ -1730,6 +1862,7 @@ func (m *c08Model) checkSorted(r *kit.Report, ruleMaint, ruleCmp string, tables 
 		counts[s.tbl.name+" sort"]++
 		fname := kit.FuncName(s.fn)
 		key := fmt.Sprintf("%s sort #%d", fname, c08Ordinal(ord, fname+"sort"))
+		m.noteFn(ruleCmp, key, s.tbl, s.fn)
 		pos := p.Pos(s.call.Pos())
 		lL, k1, why1 := m.lessUnder(s, kit.Less)
 		lG, k2, why2 := m.lessUnder(s, kit.Greater)
